@@ -271,3 +271,26 @@ class Inliner:
 
 def make_inliner(F):
     return Inliner(F)
+
+
+@rule("R03.7", props=["C03", "C04", "C06"], floor=5, title="word scans: a bit position is taken (trailing_zeros/leading_zeros) only from a window known to be non-zero")
+def r03_7(ctx, rr):
+    """`while window == 0 { advance; reload }` establishes window != 0 before `trailing_zeros()`; an `if`
+    in its place skips only one empty word and then decodes a position from an empty window."""
+    F = ctx.F()
+    bodies = [b for b in F.fns() if not is_derived(b) and b.file.endswith(("dict/elias_fano.rs", "bits/bit_vec.rs")) and any(n.get("k") == "MethodCall" and n["name"] in ("trailing_zeros", "leading_zeros") for n in walk(b.body))]
+    for b in bodies:
+        sites = []
+
+        def on_node(W, n, K, sites=sites):
+            if n.get("k") == "MethodCall" and n["name"] in ("trailing_zeros", "leading_zeros") and W.debug_depth == 0:
+                t = W.T.term(n["recv"])
+                ok = K.entails(atom_ne(t, ("int", 0))) or K.entails(atom_le(("int", 1), t))
+                sites.append((n, ok, tshow(t)[:80], K.show()[:5]))
+        Walker(F, b, on_node=on_node).run()
+        for n, ok, t, known in sites:
+            rr.instances += 1
+            key = "%s:nonzero-window" % short_fn(b.key)
+            rr.ob(ok, key=key + str(ok), sample={"fn": b.key, "site": show(F, n)[:80], "established": known})
+            if not ok:
+                rr.violate(key, "%s takes a bit position from `%s` (`%s`) without `!= 0` established on every path (established: %s): an empty word yields position 64" % (b.key, t, show(F, n)[:80], "; ".join(known) or "nothing"), F.loc(n))
